@@ -8,6 +8,7 @@ differ the observation is wrapped as [obs, 0], a shape neither MODEL nor SPEC pr
 import vals
 from bitcoin.core.script import CScript, RawSignatureHash, SignatureHash
 from .txconv import tx_from_val, val_from_tx
+from bitcoin.core.script import SIGVERSION_BASE
 
 
 def snapshot(t):
@@ -28,7 +29,15 @@ def run(op, a):
             h, err = RawSignatureHash(cs, t, idx, ht)
             obs = [h, 0 if err is None else 1]
         elif op == 2:
-            obs = SignatureHash(cs, t, idx, ht)
+            # the legacy digest does not depend on how the optional arguments are spelled: a third of
+            # the calls pass an amount (ignored by the legacy version), another third name the version
+            k = (idx + 2 * ht + len(script)) % 3
+            if k == 0:
+                obs = SignatureHash(cs, t, idx, ht)
+            elif k == 1:
+                obs = SignatureHash(cs, t, idx, ht, amount=1234567, sigversion=SIGVERSION_BASE)
+            else:
+                obs = SignatureHash(cs, t, idx, ht, amount=0)
         else:
             raise ValueError('op')
     except Exception as e:
